@@ -4,6 +4,7 @@ value_type() abstracts an expression to the python type it evaluates to, followi
 through reaching definitions, so that the rule is about what is returned and not about how the function is laid out.
 """
 import ast
+import copy
 
 from ..astutil import call_name
 from ..dataflow import reaching_defs, def_value, node_defs
@@ -62,13 +63,37 @@ def value_type(e, g, node, params, fold_const, depth=0, inline_call=None):
         if isinstance(elt, ast.Call) and isinstance(elt.func, ast.Attribute) and elt.func.attr == "strip" and not elt.args:
             return set(["strlist"])
         return set(["?:%s" % unparse(e)[:30]])
+    tv = _table_values(e, g, node)
+    if tv is not None:
+        # a value looked up in a module level table of literals: any of its values (.get also yields None, which the caller tests for)
+        out = set()
+        for v in tv:
+            out |= set(["lambda"]) if isinstance(v, ast.Lambda) else value_type(v, g, node, params, fold_const, depth + 1, inline_call)
+        return out
     if isinstance(e, ast.Call):
+        callee = _table_values(e.func, g, node)
+        if callee is not None and not e.keywords and not any(isinstance(a, ast.Starred) for a in e.args):
+            # the looked up value is called: a table of lambdas is a dispatch, each row is judged with the actual arguments put in
+            out = set()
+            for v in callee:
+                if isinstance(v, ast.Lambda) and len(v.args.args) == len(e.args) and not v.args.vararg and not v.args.kwarg:
+                    mapping = dict((a.arg, x) for a, x in zip(v.args.args, e.args))
+                    body = _Subst(mapping).visit(copy.deepcopy(v.body))
+                    out |= value_type(body, g, node, params, fold_const, depth + 1, inline_call)
+                elif isinstance(v, ast.Constant) and v.value is None:
+                    continue
+                else:
+                    out.add("?:call of table entry %s" % unparse(v)[:30])
+            return out
         if inline_call is not None:
             r = inline_call(e)
             if r is not None:
                 return value_type(r, g, node, params, fold_const, depth + 1, inline_call)
         fn = call_name(e)
         last = fn.split(".")[-1]
+        if fn == "list" and len(e.args) == 1 and isinstance(e.args[0], ast.Call) and call_name(e.args[0]) == "map" and len(e.args[0].args) == 2 \
+                and unparse(e.args[0].args[0]) == "str.strip":
+            return set(["strlist"])
         if fn in ("int", "float", "str", "bool") and len(e.args) == 1:
             return set([fn])
         if last == "default_values" and len(e.args) == 1 and isinstance(e.args[0], ast.Constant):
@@ -96,6 +121,38 @@ def value_type(e, g, node, params, fold_const, depth=0, inline_call=None):
                 return set(["param-modified:%s" % unparse(e.func.value)[:30]])
         return set(["?:%s" % unparse(e)[:40]])
     return set(["?:%s" % unparse(e)[:40]])
+
+
+TABLES = {}       # module level name -> ast.Dict display, set by the rule that uses value_type (literal tables of the module it reads)
+
+
+class _Subst(ast.NodeTransformer):
+    def __init__(self, mapping):
+        self.mapping = mapping
+
+    def visit_Name(self, n):
+        if n.id in self.mapping and isinstance(n.ctx, ast.Load):
+            return copy.deepcopy(self.mapping[n.id])
+        return n
+
+
+def _table_values(e, g, node, depth=0):
+    """value expressions of the module level literal table that `e` looks a key up in (T[k], T.get(k), T.get(k, d), or a local bound
+    once to such a look-up); None when e is no such look-up"""
+    if depth > 3:
+        return None
+    if isinstance(e, ast.Subscript) and isinstance(e.value, ast.Name) and e.value.id in TABLES:
+        return list(TABLES[e.value.id].values)
+    if isinstance(e, ast.Call) and isinstance(e.func, ast.Attribute) and e.func.attr == "get" and isinstance(e.func.value, ast.Name) \
+            and e.func.value.id in TABLES and 1 <= len(e.args) <= 2:
+        return list(TABLES[e.func.value.id].values) + ([e.args[1]] if len(e.args) == 2 else [ast.Constant(value=None)])
+    if isinstance(e, ast.Name) and g is not None and node is not None:
+        defs = list(reaching_defs(g, node, e.id))
+        if len(defs) == 1 and defs[0].kind != "entry":
+            v = def_value(defs[0], e.id)
+            if v is not None:
+                return _table_values(v, g, defs[0], depth + 1)
+    return None
 
 
 def _built_by_append(g, name):
